@@ -36,9 +36,39 @@ Section Model.
                  | RErr e _ => Err e
                  end) pre (Ok (empty_store, [])).
 
-  Definition resume_model (out_pos : str -> nat) (pre : list (option fixed)) (fx : option fixed)
+  (* the folder after a FAILED sequential run (parallel=False) with storages that dump inside the task
+     (dump_in_subprocess: file_array, shared_memory_dict): exactly the dumps of the trace up to the failure; the
+     elements before the failing one are kept, single outputs of completed generations are on disk, the rest is
+     missing.  (Memory-based storages are persisted also when the map fails.) *)
+  Definition store_of_trace (c : ctx) (tr : list action) : rstore :=
+    fold_left (fun rs a =>
+                 match a with
+                 | ADump o pos v =>
+                     match producer (x_p c) o with
+                     | Some f => match shape_of c f with
+                                 | Ok sm => let n := prod (ext_of (snd sm) (fst sm)) in
+                                            set_arr rs o (upd (get_arr rs o n) pos (Some (Ok v)))
+                                 | Err _ => rs
+                                 end
+                     | None => rs
+                     end
+                 | ADumpSingle o v => set_val rs o v
+                 | ACall _ _ _ => rs
+                 end) tr empty_store.
+
+  (* pre-filling by ONE full sequential run in which the user functions behave as body_pre (some calls raise) *)
+  Definition prefill_failing (body_pre : mfunc -> env -> result (list val)) : result (rstore * list str) :=
+    do shapes <- all_shapes user inputs p;
+    let c := {| x_p := p; x_inputs := inputs; x_shapes := shapes |} in
+    match seq_run_sel body_pre p gens inputs user None empty_store with
+    | ROk ps => Ok (p_store ps, call_strs (p_tr ps))
+    | RErr _ tr => Ok (store_of_trace c tr, call_strs tr)
+    end.
+
+  Definition resume_model (out_pos : str -> nat) (body_pre : option (mfunc -> env -> result (list val)))
+             (pre : list (option fixed)) (fx : option fixed)
              (pis : list (list nat)) : result resume_obs :=
-    do a <- prefill pre;
+    do a <- match body_pre with Some b => prefill_failing b | None => prefill pre end;
     do ps <- par_run_sel body dis p gens inputs user fx (fst a) pis;
     do shapes <- all_shapes user inputs p;
     let c := {| x_p := p; x_inputs := inputs; x_shapes := shapes |} in
